@@ -34,6 +34,25 @@ macro_rules! table {
     };
 }
 
+/// value failures are ignored, guard damage is kept (a sanitizer report ends the process through the death callback)
+fn mem_dyn<C>(f: impl Fn(&C) -> Verdict + Sync) -> impl Fn(&C) -> Verdict + Sync {
+    move |c| match f(c) {
+        Verdict::Fail { sig, .. } if !sig.contains("guard-damaged") => Verdict::pass(false, &["value_oracle_or_panic_ignored_here"]),
+        v => v,
+    }
+}
+
+/// the exact-window parts of C12 under the sanitizer: reads past an exact window land in a redzone
+fn run_exact_parts(ctx: &Ctx) {
+    let t = ctx.tier;
+    ctx.run_sub("asan_core_keygen_exact_scratch", t.pick(600, 12_000), 64, crate::c12k::strategy, mem_dyn(crate::c12k::test));
+    ctx.run_sub("asan_core_keygen2_exact_scratch", t.pick(400, 8_000), 64, crate::c06b::strategy, mem_dyn(crate::c12k::test_b));
+    ctx.run_sub("asan_core_wrapped_key_on_key", t.pick(300, 6_000), 64, c03::strategy, mem_dyn(crate::c12w::wrap::<c03::Case>(c03::test_kk)));
+    ctx.run_sub("asan_core_wrapped_packing", t.pick(200, 4_000), 64, c03::strategy, mem_dyn(crate::c12w::wrap::<c03::Case>(c03::test_pack)));
+    ctx.run_sub("asan_core_wrapped_matrix_external_product", t.pick(300, 6_000), 64, c03::strategy, mem_dyn(crate::c12w::wrap::<c03::Case>(c04::test_mat)));
+    ctx.run_sub("asan_core_wrapped_ggsw_cells", t.pick(300, 6_000), 64, c03::strategy, mem_dyn(crate::c12w::wrap::<c03::Case>(c04::test_cells)));
+}
+
 pub fn run_all(ctx: &Ctx) {
     let armed = arm_sanitizer_callback(&ctx.property, &ctx.root);
     eprintln!("[C17] pzv-scheme: sanitizer runtime {}", if armed { "present: death callback armed" } else { "ABSENT" });
@@ -44,6 +63,7 @@ pub fn run_all(ctx: &Ctx) {
         };
     }
     table!(run);
+    run_exact_parts(ctx);
 }
 
 pub fn replay(ctx: &Ctx, sub: &str, case: &serde_json::Value) -> i32 {
@@ -56,8 +76,17 @@ pub fn replay(ctx: &Ctx, sub: &str, case: &serde_json::Value) -> i32 {
         };
     }
     table!(rp);
+    match sub {
+        "asan_core_keygen_exact_scratch" => return ctx.replay_case::<crate::c12k::Case, _>(sub, case, mem_dyn(crate::c12k::test)),
+        "asan_core_keygen2_exact_scratch" => return ctx.replay_case::<crate::c06b::Case, _>(sub, case, mem_dyn(crate::c12k::test_b)),
+        "asan_core_wrapped_key_on_key" => return ctx.replay_case::<c03::Case, _>(sub, case, mem_dyn(crate::c12w::wrap::<c03::Case>(c03::test_kk))),
+        "asan_core_wrapped_packing" => return ctx.replay_case::<c03::Case, _>(sub, case, mem_dyn(crate::c12w::wrap::<c03::Case>(c03::test_pack))),
+        "asan_core_wrapped_matrix_external_product" => return ctx.replay_case::<c03::Case, _>(sub, case, mem_dyn(crate::c12w::wrap::<c03::Case>(c04::test_mat))),
+        "asan_core_wrapped_ggsw_cells" => return ctx.replay_case::<c03::Case, _>(sub, case, mem_dyn(crate::c12w::wrap::<c03::Case>(c04::test_cells))),
+        _ => {}
+    }
     eprintln!("harness error: unknown C17 sub-check {sub}");
     2
 }
 
-pub const RULE: &str = "core level (AddressSanitizer build of pzv-scheme): the generated cases of the C01-C05 sub-checks and of the C12 core part (encrypt / decrypt, programs of noise-free operations, key-switching family, external products, CMux / CSwap, GGSW expansion, tensor / relinearise / plaintext and constant products; N 8..128, ranks 1..3, dnum / dsize grids, cross-radix layouts; exact-size scratch windows for the 38 operations of the C12 core part) with every operand an exact-size heap block. Oracle: no sanitizer report, guard regions intact (value oracles belong to the owning properties and are ignored here). non-trivial = the owning sub-check's rule.";
+pub const RULE: &str = "core level (AddressSanitizer build of pzv-scheme): the generated cases of the C01-C05 sub-checks and of the C12 core part (encrypt / decrypt, programs of noise-free operations, key-switching family, external products, CMux / CSwap, GGSW expansion, tensor / relinearise / plaintext and constant products; N 8..128, ranks 1..3, dnum / dsize grids, cross-radix layouts; exact-size scratch windows for the 38 operations of the C12 core part, for the 24 encryption routines of its key-generation part and for the call sites of its wrapped part: key-on-key, packing, matrix external products, GGSW cells) with every operand an exact-size heap block. Oracle: no sanitizer report, guard regions intact (value oracles belong to the owning properties and are ignored here). non-trivial = the owning sub-check's rule.";
